@@ -146,6 +146,18 @@ class Membership:
                                 kl = "membership:negation-re-includes-file-under-excluded-directory"
                         return {"expected": f"{os.path.relpath(p, root)} member={p in expected} (patterns {pats})",
                                 "observed": f"spelled {os.path.relpath(s, root)!r}: {obs}", "klass": kl}
+            # spellings that name nothing: ".." after a component that does not exist / is a regular file, a trailing "/."
+            for p in paths:
+                if os.path.isfile(p):
+                    d, b = os.path.dirname(p), os.path.basename(p)
+                    for s in (os.path.join(d, "no_such_dir", "..", b), os.path.join(p, "..", b), os.path.join(p, ".")):
+                        try:
+                            obs = s in code
+                        except Exception as e:      # noqa: BLE001
+                            obs = f"raised {type(e).__name__}"
+                        if obs is not False:
+                            return {"expected": f"{os.path.relpath(s, root)} names no file (os.path.exists is False): member=False",
+                                    "observed": str(obs), "klass": "membership:spelling-that-names-nothing"}
             listed = sorted(code)
             # enumeration: exactly the members that a walk without following directory links reaches
             want = sorted(p for p in expected if p.startswith(cb + os.sep) and not any(
